@@ -46,6 +46,7 @@ type histProfile struct {
 	shareAddr                                  int // 1 in n histories has devices sharing an address
 	confirmedOnly                              bool
 	nonceOff                                   int  // 1 in n histories disables the nonce check
+	oddPorts                                   int  // 1 in n submissions (through the storage layer) names a port no frame can carry
 	badDatr                                    bool // gateways sometimes report an unknown data-rate string
 	maxSubmit                                  int  // largest queued payload (0: up to 230, beyond some data rates' limit)
 	noRestart                                  bool // one server for the whole history
@@ -736,7 +737,9 @@ func runHistory(rng *rand.Rand, prof histProfile, w *Writer, suite string) {
 			}
 		default:
 			port := uint8([]int{1, 223, 1 + rng.Intn(223), 1 + rng.Intn(223)}[rng.Intn(4)]) // what the service lets an application queue
-			if os.Getenv("VERIF_EXPERIMENT_PORTS") != "" && rng.Intn(3) == 0 {
+			if (os.Getenv("VERIF_EXPERIMENT_PORTS") != "" && rng.Intn(3) == 0) || (prof.oddPorts > 0 && rng.Intn(prof.oddPorts) == 0) {
+				// queued through the storage layer (the service refuses these ports): port 0 with payload and ports 224..255 are
+				// messages no frame can carry - never transmitted, hence never reported sent or acknowledged
 				port = uint8([]int{0, 224, 255}[rng.Intn(3)])
 			}
 			n := 1 + rng.Intn(30)
@@ -761,7 +764,7 @@ var profiles = map[string]histProfile{
 	"C05": {staleWrites: 12, wUpdate: 30, badDatr: true, name: "C05", wUplink: 3, wCorrupt: 0, wJoin: 8, wSubmit: 1, wReplay: 1, maxDevs: 3, minEv: 8, maxEv: 20, shareAddr: 0, nonceOff: 3},
 	"C06": {maxSubmit: 59, name: "C06", wUplink: 8, wCorrupt: 2, wJoin: 1, wSubmit: 6, wReplay: 1, maxDevs: 4, minEv: 10, maxEv: 30, shareAddr: 6},
 	"C07": {nonceOff: 3, wUpdate: 20, badDatr: true, name: "C07", wUplink: 8, wCorrupt: 1, wJoin: 3, wSubmit: 3, wReplay: 1, maxDevs: 2, minEv: 10, maxEv: 30, confirmedOnly: true},
-	"C08": {maxSubmit: 59, name: "C08", wUplink: 9, wCorrupt: 1, wJoin: 0, wSubmit: 5, wReplay: 1, maxDevs: 3, minEv: 12, maxEv: 30},
+	"C08": {oddPorts: 6, maxSubmit: 59, name: "C08", wUplink: 9, wCorrupt: 1, wJoin: 0, wSubmit: 5, wReplay: 1, maxDevs: 3, minEv: 12, maxEv: 30},
 	// a long life of one server under mostly undecodable / unauthentic radio payloads, valid traffic in between
 	"C11": {noRestart: true, maxSubmit: 40, name: "C11", wUplink: 2, wCorrupt: 6, wJoin: 1, wSubmit: 1, wReplay: 9, maxDevs: 1, minEv: 320, maxEv: 380},
 	"C10": {maxSubmit: 40, name: "C10", wUplink: 5, wCorrupt: 0, wJoin: 1, wSubmit: 3, wReplay: 2, wCrash: 6, maxDevs: 1, minEv: 8, maxEv: 20},
